@@ -191,7 +191,8 @@ Definition sie_write (zero : sample) (data : list sample) (st : sie) : option si
       let dl := last pb first in
       if (rin <? rout) && (nrec - rout + rin <? 0) then None   (* ftruncate to a negative size fails *)
       else
-      Some (mkSie f3 (fr + rin) (fr + rin - 1) (fst dl) (fst dl) dl (cl st2) false (rin <=? 1) (fst dl))
+      (* since fix adbcfc3 the I/O pointer is the sample after the last one written *)
+      Some (mkSie f3 (fr + rin) (fr + rin - 1) (fst dl + 1) (fst dl) dl (cl st2) false (rin <=? 1) (fst dl + 1))
     end
   end.
 
